@@ -267,7 +267,7 @@ def compare_pairs(obs, A, B, env, idx, regions, timeout, replay, terms, bound=19
     def is_short(o):
         k = id(o)
         if k not in short_cache:
-            short_cache[k] = all(prove(z3.Implies(o.pc, z3.ULE(l, BV(bound))), hyps, timeout_ms=5000, use_cvc5=False, nl_abstraction=False)["status"] == "proved" for l in _payload_lens(o))
+            short_cache[k] = all(prove(z3.Implies(o.pc, z3.ULE(l, BV(bound))), hyps, timeout_ms=25000, use_cvc5=False, nl_abstraction=False)["status"] == "proved" for l in _payload_lens(o))
         return short_cache[k]
 
     for a in A:
